@@ -13,13 +13,13 @@ PY = "/venv/bin/python"
 CHECKS = {
     "C01": (
         "regex language inclusion (tokenizer vs tag handler) + typestate/flow walk over parser handlers",
-        "Decides eleven necessary conditions of parse() totality and tree well-formedness for all inputs: every tokenizer tag token is accepted by tag_fn's regexes (language inclusion), no token alternative is nullable, heading tables agree, numeric conversions on the parse path are soundly guarded, children and attribute text are finalised before they are moved into argument fields, raw stack pops are paired with removal from the parent, parser state is reset per parse, row/cell/caption/list-item pushes happen only with the required parent on top (set-valued typestate), no loop around _parser_pop can pop ROOT, entries of the parameter defaultdict stay lists, constant indexes into a node's largs/children are guarded, cookie finalisation iterates to a fixed point and the parser never resets the cookie table. Does not decide totality in general. Token handlers close begin-of-line lists before they open a node (inferred from 13 conforming handlers, frozen with three reasoned exceptions).",
+        "Decides eleven necessary conditions of parse() totality and tree well-formedness for all inputs: every tokenizer tag token is accepted by tag_fn's regexes (language inclusion), no token alternative is nullable, heading tables agree, numeric conversions on the parse path are soundly guarded, children and attribute text are finalised before they are moved into argument fields, raw stack pops are paired with removal from the parent, parser state is reset per parse, row/cell/caption/list-item pushes happen only with the required parent on top (set-valued typestate), no loop around _parser_pop can pop ROOT, entries of the parameter defaultdict stay lists, constant indexes into a node's largs/children are guarded, cookie finalisation iterates to a fixed point and the parser never resets the cookie table. Does not decide totality in general. Token handlers close begin-of-line lists before they open a node (inferred from 13 conforming handlers, frozen with three reasoned exceptions). No memoised function returns per-page encoded text; the serialiser the parser calls is only handed fields that are set.",
         "Trusts Python's re semantics as modelled by the regex toolkit; handlers reached only through tokenops/process_text dispatch.",
         "DESIGN.md §3 C01",
     ),
     "C02": (
         "decision-skeleton evaluation over NodeKind x level",
-        "Evaluates the extracted stop predicates of subtitle_start_fn (loop condition included) and hline_fn over all 27 node kinds x 6 levels against the nesting rule of the statement, plus same-line/same-kind matching of heading ends, marker provenance in list_fn, closing of all open lists by non-list content at the beginning of a line, the universal (every position) form of the open-marker comparison, and per-parse reset / balanced management of the beginning-of-line state. Thin: 'exactly one node per line' and marker values are not decided.",
+        "Evaluates the extracted stop predicates of subtitle_start_fn (loop condition included) and hline_fn over all 27 node kinds x 6 levels against the nesting rule of the statement, plus same-line/same-kind matching of heading ends, marker provenance in list_fn, closing of all open lists by non-list content at the beginning of a line, the universal (every position) form of the open-marker comparison, and per-parse reset / balanced management of the beginning-of-line state. Thin: 'exactly one node per line' and marker values are not decided. The list-closing pop count is not taken from a top-down first-match scan; the marker-prefix test admits every shorter prefix.",
         "The statement's nesting rule is the oracle; tables are recovered by constant folding, not by importing the package.",
         "DESIGN.md §3 C02",
     ),
@@ -37,7 +37,7 @@ CHECKS = {
     ),
     "C05": (
         "may-raise analysis over the parser-function registry + recursion-guard dominance",
-        "For every registered parser function and the expansion closure: constant argument indexes are guarded, numeric conversions are soundly guarded, #expr arithmetic applications are under handlers covering the operator tables' exceptions, data-table subscripts are guarded or present in every shipped data file, tables read by SQL exist, recursion/loop guards dominate the recursive calls with a bounded depth constant, input-sized work is clamped, every call-graph cycle on the expansion path is depth-guarded or an enumerated structural recursion (frame-hungry ones under a RecursionError handler), constructor helpers assign the same context attributes on every path. Does not decide termination in general. The template-loop detector enumerates candidate periods; new recursive groups are accepted only with a size-change argument (every cycle descends into a part of a parameter).",
+        "For every registered parser function and the expansion closure: constant argument indexes are guarded, numeric conversions are soundly guarded, #expr arithmetic applications are under handlers covering the operator tables' exceptions, data-table subscripts are guarded or present in every shipped data file, tables read by SQL exist, recursion/loop guards dominate the recursive calls with a bounded depth constant, input-sized work is clamped, every call-graph cycle on the expansion path is depth-guarded or an enumerated structural recursion (frame-hungry ones under a RecursionError handler), constructor helpers assign the same context attributes on every path. Does not decide termination in general. The template-loop detector enumerates candidate periods; new recursive groups are accepted only with a size-change argument (every cycle descends into a part of a parameter). The expansion path the recursion guards read is never rebound during a page.",
         "Frozen exception table for math/builtin callables; network-backed functions excluded by name.",
         "DESIGN.md §3 C05",
     ),
@@ -49,7 +49,7 @@ CHECKS = {
     ),
     "C07": (
         "capability reachability (hook control, error-catching primitives) + cross-language constants",
-        "Decides whether a module can defeat the time limit: hook-control functions not reachable from the environment, error-catching primitives re-raise the timeout marker, the limit is armed before both pcall sites, the Python side tests the same marker string and leaves the context usable, the limit is bounded and freshly armed, the module cache receives only results of completed initialisation chunks (nothing a timeout could leave behind), the limit of an invocation is the parameter of the enclosing expand() call, never stored state, the timeout marker is probed position-independently in the whole error text, and a nested invocation neither removes nor restarts the hook of the enclosing one. Does not bound wall time.",
+        "Decides whether a module can defeat the time limit: hook-control functions not reachable from the environment, error-catching primitives re-raise the timeout marker, the limit is armed before both pcall sites, the Python side tests the same marker string and leaves the context usable, the limit is bounded and freshly armed, the module cache receives only results of completed initialisation chunks (nothing a timeout could leave behind), the limit of an invocation is the parameter of the enclosing expand() call, never stored state, the timeout marker is probed position-independently in the whole error text, and a nested invocation neither removes nor restarts the hook of the enclosing one. Does not bound wall time. The stacks the Lua side holds by identity are never rebound.",
         "Timeout is delivered by error() from a count hook as in the shipped sources.",
         "DESIGN.md §3 C07",
     ),
@@ -67,7 +67,7 @@ CHECKS = {
     ),
     "C10": (
         "SQL fact extraction + flow walk (memo invalidation after writers)",
-        "Memoised readers of table pages are invalidated after every writer on every normal path, the upsert updates every non-key column from excluded.* unconditionally, column lists align with bound tuples and with Page(...) construction, every lookup helper goes through get_page, commits precede close/backup, writer and reader agree on the stored key form, no case-altering call on titles beyond the first letter, the namespace tables are indexed with keys of their own key space (canonical vs local names, checked against the shipped data), objects handed out by the memoised lookup are never modified, writer and reader apply the same normalising operations, every writer of the table maintains the same in-memory mirrors, closing a context deletes no shared file, every memoised function that reaches a SELECT on pages is invalidated by every writer, namespace prefixes are lower-cased when asked, and `_` is replaced before the title meets a prefix test or the lookup. Does not decide the title-spelling matrix.",
+        "Memoised readers of table pages are invalidated after every writer on every normal path, the upsert updates every non-key column from excluded.* unconditionally, column lists align with bound tuples and with Page(...) construction, every lookup helper goes through get_page, commits precede close/backup, writer and reader agree on the stored key form, no case-altering call on titles beyond the first letter, the namespace tables are indexed with keys of their own key space (canonical vs local names, checked against the shipped data), objects handed out by the memoised lookup are never modified, writer and reader apply the same normalising operations, every writer of the table maintains the same in-memory mirrors, closing a context deletes no shared file, every memoised function that reaches a SELECT on pages is invalidated by every writer, namespace prefixes are lower-cased when asked, and `_` is replaced before the title meets a prefix test or the lookup. Does not decide the title-spelling matrix. Context attributes filled from looked-up pages are invalidated by every writer of the table.",
         "SQL is recovered from string constants reaching execute/executescript.",
         "DESIGN.md §3 C10",
     ),
@@ -115,13 +115,13 @@ CHECKS = {
     ),
     "C18": (
         "table agreement with the documented precedence ladder + mypy comparison-overlap + data cross-check",
-        "The #expr ladder and the table used at each level agree with the documented precedence, left folding; no str/int comparison in registered functions (quick: annotation-driven AST rule; thorough: mypy strict equality); formatnum and formatnum|R are inverse by statement order for every shipped locale, and the locale data is used as loaded. Values of the string functions are not decided. #explode resolves a negative position against a piece count that depends on the limit (information flow).",
+        "The #expr ladder and the table used at each level agree with the documented precedence, left folding; no str/int comparison in registered functions (quick: annotation-driven AST rule; thorough: mypy strict equality); formatnum and formatnum|R are inverse by statement order for every shipped locale, and the locale data is used as loaded. Values of the string functions are not decided. #explode resolves a negative position against a piece count that depends on the limit (information flow). Slice bounds computed from signed arguments are provably non-negative (path-sensitive integer bounds); the name:argument text is only stripped of modifiers before the split.",
         "Documented precedence table frozen in the checker; values of string functions not decided.",
         "DESIGN.md §3 C18",
     ),
     "C19": (
         "exhaustiveness + writer/reader delimiter agreement + flow walk over emitter arms",
-        "to_wikitext handles every NodeKind; each opening literal it writes is a token that opens that kind in the parser; heading tables are inverse; [[ and ]] are both protected; attribute values are quoted; a parser function keeps its colon whenever it has an argument list; on every path through every emitter the node's content field (children / largs) is written out whenever it may be non-empty; every attribute line the emitter can write is accepted by the table parser (regex inclusion); serialiser counters are balanced; `<tag />` closes the element in the parser; the text between a cell's attributes and its content is the token table_cell_fn splits at; serialised content is written out unaltered.",
+        "to_wikitext handles every NodeKind; each opening literal it writes is a token that opens that kind in the parser; heading tables are inverse; [[ and ]] are both protected; attribute values are quoted; a parser function keeps its colon whenever it has an argument list; on every path through every emitter the node's content field (children / largs) is written out whenever it may be non-empty; every attribute line the emitter can write is accepted by the table parser (regex inclusion); serialiser counters are balanced; `<tag />` closes the element in the parser; the text between a cell's attributes and its content is the token table_cell_fn splits at; serialised content is written out unaltered. Bare start tags are written only for tags the parser closes by itself (constant folder over the tag table); Optional fields are serialised only when set; content fields the parser fills besides children/largs are written out.",
         "Tree equivalence after re-parse is not decided.",
         "DESIGN.md §3 C19",
     ),
